@@ -981,14 +981,14 @@ theorem relay_writeLoop_never_upgrades (hs : Nat) : ∀ (ws : List WRes) (s : Re
   | nil => intro s h; unfold Relay.writeLoop; split <;> simp
   | cons w ws ih =>
     intro s h
-    cases w with
-    | wouldBlock => simp [Relay.writeLoop]
-    | err => simp [Relay.writeLoop]
-    | ok n =>
-      unfold Relay.writeLoop
-      split
-      · simp
-      · simp only
+    unfold Relay.writeLoop
+    split
+    · simp
+    · cases w with
+      | wouldBlock => simp
+      | err => simp
+      | ok n =>
+        simp only
         have hlen : (s.buf.consume (min n s.buf.data.length)).data.length =
             s.buf.data.length - min n s.buf.data.length := by
           rw [consume_data, List.length_drop]; omega
